@@ -360,7 +360,7 @@ var validTexts = map[string][]string{
 	"roman": {"I", "IV", "MCMXCIV", "mdclxvi", "XLII", "CCCC", "ix", ""},
 	"sem":   {"1.2.3", "v1.2.3", "0.0.1", "1.0.0-alpha.1", "1.0.0-rc.1+build.5", "18446744073709551615.0.0", "v2.0.0+001", "10.20.30-a-b.c+d.e-f"},
 	"size":  {"10", "20KiB", "1 000 kB", "1_000", "1 KiB  ", "18446744073709551615", " 7 EiB ", "0", "1 02 4"},
-	"uu":    {"00000000-0000-0000-0000-000000000001", "urn:uuid:123e4567-e89b-12d3-a456-426614174000", "123E4567-E89B-12D3-A456-426614174000", "ffffffff-ffff-4fff-bfff-ffffffffffff"},
+	"uu":    {"00000000-0000-0000-0000-000000000001", "urn:uuid:123e4567-e89b-12d3-a456-426614174000", "URN:uuid:123E4567-E89B-12D3-A456-426614174000", "Urn:uuid:ffffffff-ffff-4fff-bfff-fffffffffff0", "123E4567-E89B-12D3-A456-426614174000", "ffffffff-ffff-4fff-bfff-ffffffffffff"},
 }
 
 var sizeJSON = []string{`"7" "8"`, `"7" x`, `7 8`, `"7"`, `"7 B"`, `{"value":7,"unit":"B"} 8`, `10`, `"20 KiB"`, `{"value":1,"unit":"KiB"}`, `{"unit":"MB","value":3,"x":[1,{"y":null}]}`, ` {"value":5,"unit":"B"} `, `"1_000"`, `18446744073709551615`,
